@@ -329,6 +329,328 @@ fn sites(root: &str) {
     }
 }
 
+// ---------------------------------------------------------------------------------------------
+// `translate cfg <crate root dir> <lib.rs>`: facts for C20 (module tree with cfg predicates, items,
+// crate-internal references, external crate mentions, derive entry points, macro-generated exports).
+
+fn cfg_json(m: &syn::Meta) -> String {
+    match m {
+        syn::Meta::Path(p) => format!("{{\"flag\":{}}}", js(&path_str(p))),
+        syn::Meta::NameValue(nv) => {
+            let k = path_str(&nv.path);
+            let v = quote::ToTokens::to_token_stream(&nv.value).to_string();
+            let v = v.trim_matches('"').to_string();
+            if k == "feature" {
+                format!("{{\"feat\":{}}}", js(&v))
+            } else {
+                format!("{{\"flag\":{}}}", js(&format!("{k}={v}")))
+            }
+        }
+        syn::Meta::List(l) => {
+            let k = path_str(&l.path);
+            let inner: Vec<syn::Meta> = l
+                .parse_args_with(syn::punctuated::Punctuated::<syn::Meta, syn::Token![,]>::parse_terminated)
+                .map(|p| p.into_iter().collect())
+                .unwrap_or_default();
+            let parts: Vec<String> = inner.iter().map(cfg_json).collect();
+            match k.as_str() {
+                "any" => format!("{{\"any\":[{}]}}", parts.join(",")),
+                "all" => format!("{{\"all\":[{}]}}", parts.join(",")),
+                "not" => format!("{{\"not\":{}}}", parts.first().cloned().unwrap_or("true".into())),
+                _ => format!("{{\"flag\":{}}}", js(&k)),
+            }
+        }
+    }
+}
+
+/// Conjunction of the `#[cfg(..)]` attributes of an item.
+fn attrs_cfg(attrs: &[syn::Attribute]) -> Vec<String> {
+    let mut out = Vec::new();
+    for a in attrs {
+        if a.path().is_ident("cfg") {
+            if let syn::Meta::List(l) = &a.meta {
+                if let Ok(inner) = l.parse_args::<syn::Meta>() {
+                    out.push(cfg_json(&inner));
+                }
+            }
+        }
+    }
+    out
+}
+
+fn conj(parts: &[String]) -> String {
+    if parts.is_empty() {
+        "true".into()
+    } else if parts.len() == 1 {
+        parts[0].clone()
+    } else {
+        format!("{{\"all\":[{}]}}", parts.join(","))
+    }
+}
+
+struct CfgOut {
+    files: Vec<String>,
+    derives: Vec<String>,
+    macro_exports: Vec<String>,
+}
+
+struct RefVisitor<'a> {
+    refs: &'a mut Vec<(String, usize)>,
+    ext: &'a mut Vec<(String, usize)>,
+}
+
+const EXT_CRATES: &[&str] = &["convert_case", "unicode_xid", "rustc_version", "syn", "quote", "proc_macro2", "proc_macro"];
+
+impl<'ast, 'a> syn::visit::Visit<'ast> for RefVisitor<'a> {
+    fn visit_path(&mut self, p: &'ast syn::Path) {
+        if let Some(first) = p.segments.first() {
+            let f = first.ident.to_string();
+            if f == "crate" || f == "super" || f == "self" {
+                self.refs.push((path_str(p), first.ident.span().start().line));
+            } else if EXT_CRATES.contains(&f.as_str()) && p.segments.len() > 1 {
+                self.ext.push((path_str(p), first.ident.span().start().line));
+            }
+        }
+        syn::visit::visit_path(self, p);
+    }
+    fn visit_item_use(&mut self, u: &'ast syn::ItemUse) {
+        let mut leaves = Vec::new();
+        use_leaves("", &u.tree, &mut leaves);
+        for (_, p, l) in leaves {
+            let f = p.split("::").next().unwrap_or("").to_string();
+            if f == "crate" || f == "super" || f == "self" {
+                self.refs.push((p, l));
+            } else if EXT_CRATES.contains(&f.as_str()) {
+                self.ext.push((p, l));
+            }
+        }
+    }
+    fn visit_macro(&mut self, m: &'ast syn::Macro) {
+        // token-level scan of macro bodies for `crate :: a :: b` and external crate paths
+        scan_paths(m.tokens.clone(), self.refs, self.ext);
+    }
+}
+
+fn scan_paths(ts: TokenStream, refs: &mut Vec<(String, usize)>, ext: &mut Vec<(String, usize)>) {
+    let toks: Vec<TokenTree> = ts.into_iter().collect();
+    let mut i = 0;
+    while i < toks.len() {
+        match &toks[i] {
+            TokenTree::Group(g) => scan_paths(g.stream(), refs, ext),
+            TokenTree::Ident(id) => {
+                let f = id.to_string();
+                let prev_is_path = i >= 2
+                    && matches!(&toks[i - 1], TokenTree::Punct(p) if p.as_char() == ':')
+                    && matches!(&toks[i - 2], TokenTree::Punct(p) if p.as_char() == ':');
+                if !prev_is_path && (f == "crate" || EXT_CRATES.contains(&f.as_str())) {
+                    let mut path = f.clone();
+                    let mut j = i + 1;
+                    while j + 2 < toks.len()
+                        && matches!(&toks[j], TokenTree::Punct(p) if p.as_char() == ':')
+                        && matches!(&toks[j + 1], TokenTree::Punct(p) if p.as_char() == ':')
+                    {
+                        if let TokenTree::Ident(n) = &toks[j + 2] {
+                            path.push_str("::");
+                            path.push_str(&n.to_string());
+                            j += 3;
+                        } else {
+                            break;
+                        }
+                    }
+                    if path.contains("::") {
+                        if f == "crate" {
+                            refs.push((path, id.span().start().line));
+                        } else {
+                            ext.push((path, id.span().start().line));
+                        }
+                    }
+                }
+            }
+            _ => {}
+        }
+        i += 1;
+    }
+}
+
+fn item_ident(it: &syn::Item) -> Option<(String, &'static str, &[syn::Attribute])> {
+    Some(match it {
+        syn::Item::Fn(x) => (x.sig.ident.to_string(), "fn", &x.attrs[..]),
+        syn::Item::Struct(x) => (x.ident.to_string(), "struct", &x.attrs[..]),
+        syn::Item::Enum(x) => (x.ident.to_string(), "enum", &x.attrs[..]),
+        syn::Item::Trait(x) => (x.ident.to_string(), "trait", &x.attrs[..]),
+        syn::Item::Type(x) => (x.ident.to_string(), "type", &x.attrs[..]),
+        syn::Item::Const(x) => (x.ident.to_string(), "const", &x.attrs[..]),
+        syn::Item::Static(x) => (x.ident.to_string(), "static", &x.attrs[..]),
+        syn::Item::Mod(x) => (x.ident.to_string(), "mod", &x.attrs[..]),
+        syn::Item::Union(x) => (x.ident.to_string(), "union", &x.attrs[..]),
+        _ => return None,
+    })
+}
+
+#[allow(clippy::too_many_arguments)]
+fn walk_items(
+    items: &[syn::Item], inline: &str, chain: &[String], file_items: &mut Vec<String>, file_refs: &mut Vec<String>,
+    file_ext: &mut Vec<String>, submods: &mut Vec<(String, Vec<String>, String)>, out: &mut CfgOut,
+) {
+    for it in items {
+        let own = match it {
+            syn::Item::Use(u) => attrs_cfg(&u.attrs),
+            syn::Item::Impl(i) => attrs_cfg(&i.attrs),
+            syn::Item::Macro(m) => attrs_cfg(&m.attrs),
+            syn::Item::ExternCrate(e) => attrs_cfg(&e.attrs),
+            other => item_ident(other).map(|(_, _, a)| attrs_cfg(a)).unwrap_or_default(),
+        };
+        let mut eff: Vec<String> = chain.to_vec();
+        eff.extend(own.clone());
+        let name_of = |n: &str| if inline.is_empty() { n.to_string() } else { format!("{inline}::{n}") };
+        match it {
+            syn::Item::Mod(m) => {
+                let n = m.ident.to_string();
+                let n = n.trim_start_matches("r#").to_string();
+                file_items.push(format!("{{\"name\":{},\"kind\":\"mod\",\"cfg\":{},\"line\":{}}}", js(&name_of(&n)), conj(&eff), m.ident.span().start().line));
+                if let Some((_, content)) = &m.content {
+                    walk_items(content, &name_of(&n), &eff, file_items, file_refs, file_ext, submods, out);
+                } else {
+                    submods.push((name_of(&n), eff.clone(), n.clone()));
+                }
+            }
+            syn::Item::Use(u) => {
+                let mut leaves = Vec::new();
+                use_leaves("", &u.tree, &mut leaves);
+                let vis = !matches!(u.vis, syn::Visibility::Inherited);
+                for (n, p, l) in &leaves {
+                    file_items.push(format!(
+                        "{{\"name\":{},\"kind\":\"use\",\"target\":{},\"pub\":{},\"cfg\":{},\"line\":{}}}",
+                        js(&name_of(n)), js(p), vis, conj(&eff), l
+                    ));
+                }
+                let mut refs = Vec::new();
+                let mut ext = Vec::new();
+                let mut v = RefVisitor { refs: &mut refs, ext: &mut ext };
+                syn::visit::Visit::visit_item_use(&mut v, u);
+                for (p, l) in refs {
+                    file_refs.push(format!("{{\"path\":{},\"from\":{},\"cfg\":{},\"line\":{}}}", js(&p), js(inline), conj(&eff), l));
+                }
+                for (p, l) in ext {
+                    file_ext.push(format!("{{\"path\":{},\"cfg\":{},\"line\":{}}}", js(&p), conj(&eff), l));
+                }
+            }
+            syn::Item::Macro(m) => {
+                let mname = path_str(&m.mac.path);
+                if mname == "create_derive" {
+                    let toks: Vec<String> = m.mac.tokens.clone().into_iter().filter_map(|t| match t {
+                        TokenTree::Literal(l) => Some(l.to_string().trim_matches('"').to_string()),
+                        TokenTree::Ident(i) => Some(i.to_string()),
+                        _ => None,
+                    }).collect();
+                    // "feature", module path idents.., Trait, fn_name, attrs..  (module path = idents before the first capitalised one)
+                    let feature = toks[0].clone();
+                    let mut modp = Vec::new();
+                    let mut k = 1;
+                    while k < toks.len() && !toks[k].chars().next().unwrap().is_uppercase() {
+                        modp.push(toks[k].trim_start_matches("r#").to_string());
+                        k += 1;
+                    }
+                    let tr = toks.get(k).cloned().unwrap_or_default();
+                    out.derives.push(format!("{{\"feature\":{},\"module\":{},\"trait\":{}}}", js(&feature), js(&modp.join("::")), js(&tr)));
+                } else if mname == "re_export_traits" {
+                    let toks: Vec<String> = m.mac.tokens.clone().into_iter().filter_map(|t| match t {
+                        TokenTree::Literal(l) => Some(l.to_string().trim_matches('"').to_string()),
+                        TokenTree::Ident(i) => Some(i.to_string()),
+                        _ => None,
+                    }).collect();
+                    let feature = toks[0].clone();
+                    let traits: Vec<String> = toks[1..].iter().filter(|t| t.chars().next().unwrap().is_uppercase()).map(|t| js(t)).collect();
+                    out.macro_exports.push(format!(
+                        "{{\"feature\":{},\"module\":{},\"traits\":[{}],\"cfg\":{},\"line\":{}}}",
+                        js(&feature), js(inline), traits.join(","), conj(&eff), m.mac.path.segments[0].ident.span().start().line
+                    ));
+                } else {
+                    let mut refs = Vec::new();
+                    let mut ext = Vec::new();
+                    scan_paths(m.mac.tokens.clone(), &mut refs, &mut ext);
+                    for (p, l) in refs {
+                        file_refs.push(format!("{{\"path\":{},\"from\":{},\"cfg\":{},\"line\":{}}}", js(&p), js(inline), conj(&eff), l));
+                    }
+                    for (p, l) in ext {
+                        file_ext.push(format!("{{\"path\":{},\"cfg\":{},\"line\":{}}}", js(&p), conj(&eff), l));
+                    }
+                }
+            }
+            other => {
+                if let Some((n, kind, _)) = item_ident(other) {
+                    file_items.push(format!("{{\"name\":{},\"kind\":{},\"cfg\":{},\"line\":0}}", js(&name_of(&n)), js(kind), conj(&eff)));
+                }
+                let mut refs = Vec::new();
+                let mut ext = Vec::new();
+                let mut v = RefVisitor { refs: &mut refs, ext: &mut ext };
+                syn::visit::Visit::visit_item(&mut v, other);
+                for (p, l) in refs {
+                    file_refs.push(format!("{{\"path\":{},\"from\":{},\"cfg\":{},\"line\":{}}}", js(&p), js(inline), conj(&eff), l));
+                }
+                for (p, l) in ext {
+                    file_ext.push(format!("{{\"path\":{},\"cfg\":{},\"line\":{}}}", js(&p), conj(&eff), l));
+                }
+            }
+        }
+    }
+}
+
+fn walk_file(dir: &Path, file: &Path, module: &str, mod_chain: &[String], out: &mut CfgOut) {
+    let src = match fs::read_to_string(file) {
+        Ok(s) => s,
+        Err(e) => {
+            out.files.push(format!("{{\"file\":{},\"error\":{}}}", js(&file.to_string_lossy()), js(&e.to_string())));
+            return;
+        }
+    };
+    let ast = match syn::parse_file(&src) {
+        Ok(a) => a,
+        Err(e) => {
+            out.files.push(format!("{{\"file\":{},\"error\":{}}}", js(&file.to_string_lossy()), js(&e.to_string())));
+            return;
+        }
+    };
+    let (mut items, mut refs, mut ext, mut submods) = (Vec::new(), Vec::new(), Vec::new(), Vec::new());
+    walk_items(&ast.items, "", &[], &mut items, &mut refs, &mut ext, &mut submods, out);
+    out.files.push(format!(
+        "{{\"file\":{},\"module\":{},\"mod_cfg\":{},\"items\":[{}],\"refs\":[{}],\"ext\":[{}]}}",
+        js(&file.to_string_lossy()), js(module), conj(mod_chain), items.join(","), refs.join(","), ext.join(",")
+    ));
+    let is_root_like = file.file_name().map(|f| f == "lib.rs" || f == "mod.rs").unwrap_or(false);
+    let base = if is_root_like { dir.to_path_buf() } else { dir.join(file.file_stem().unwrap()) };
+    for (inline_path, cfgs, name) in submods {
+        // only file modules declared at the top level of the file (inline_path has no `::`) are followed
+        let mut sub_dir = base.clone();
+        let parts: Vec<&str> = inline_path.split("::").collect();
+        for p in &parts[..parts.len() - 1] {
+            sub_dir = sub_dir.join(p);
+        }
+        let f1 = sub_dir.join(format!("{name}.rs"));
+        let f2 = sub_dir.join(&name).join("mod.rs");
+        let mut chain: Vec<String> = mod_chain.to_vec();
+        chain.extend(cfgs);
+        let sub_module = if module.is_empty() { inline_path.clone() } else { format!("{module}::{inline_path}") };
+        if f1.exists() {
+            walk_file(&sub_dir, &f1, &sub_module, &chain, out);
+        } else if f2.exists() {
+            walk_file(&sub_dir.join(&name), &f2, &sub_module, &chain, out);
+        } else {
+            out.files.push(format!("{{\"file\":{},\"error\":\"module file not found\"}}", js(&f1.to_string_lossy())));
+        }
+    }
+}
+
+fn cfg_cmd(lib: &str) {
+    let lib = Path::new(lib);
+    let mut out = CfgOut { files: vec![], derives: vec![], macro_exports: vec![] };
+    walk_file(lib.parent().unwrap(), lib, "", &[], &mut out);
+    println!(
+        "{{\"files\":[{}],\"derives\":[{}],\"macro_exports\":[{}]}}",
+        out.files.join(","), out.derives.join(","), out.macro_exports.join(",")
+    );
+}
+
 fn main() {
     let args: Vec<String> = env::args().collect();
     match args.get(1).map(|s| s.as_str()) {
@@ -353,6 +675,7 @@ fn main() {
             }
         }
         Some("sites") => sites(&args[2]),
+        Some("cfg") => cfg_cmd(&args[2]),
         Some("tokens") => {
             let src = fs::read_to_string(&args[2]).unwrap();
             let ts: TokenStream = src.parse().unwrap();
